@@ -196,6 +196,21 @@ pub fn run(rep: &Report) {
         issue_and_collect(&wt[*ti], s, &cfgs[0], &st, l);
         issue_and_collect(&wt[*ti], s, &cfgs[2], &st, l);
     });
+    // every member / element count 0..40 and around 64, 128, 256
+    let cs = count_sweep_trees();
+    let mut items4 = vec![];
+    for (ti, t) in cs.iter().enumerate() {
+        for s in count_sweep_strategies(t) {
+            items4.push((ti, s));
+        }
+    }
+    par_for(rep, items4.len(), |i, l| {
+        let (ti, s) = &items4[i];
+        for cfg in &cfgs {
+            issue_and_collect(&cs[*ti], s, cfg, &st, l);
+        }
+    });
+    rep.scope_done(json!({"scope": "count sweep: objects / arrays with every member count 0..40 and 47..49, 63..65, 127..129, 255..257 (root, nested, in an array) x {NoSD, Top, All} x 3 cfgs", "tree_x_strategy": items4.len()}));
     // more digests in one credential than any everyday cap
     let vw = very_wide_trees();
     {
